@@ -4,20 +4,20 @@ import TakVerif.Proofs.C06Expand
 namespace C06
 open Tak Tak.PN Spec.Game
 
-variable {S M : Type} (G : Game S M) (att : Color)
+variable {S M : Type} (G : Game S M) (att : Color) (root : S)
 
 /-- the invariant does not look at `cfg`, `stats`, `anomaly` -/
 theorem ZipOK_congr {st st' : St S M} (hf : st'.focus = st.focus) (hu : st'.up = st.up)
     (hs : st'.stack = st.stack) (hd : st'.depthLimited = st.depthLimited) :
-    ZipOK G att st ↔ ZipOK G att st' := by
+    ZipOK G att root st ↔ ZipOK G att root st' := by
   unfold ZipOK; rw [hf, hu, hs, hd]
 
 /-- renumbering the focus from its children (or from its value) keeps the state sound, unless the
 focus is a solved node without children -/
 theorem renumber_ok (hsb : SmallBranching G) (st : St S M) (cur : S) (hs : List S)
-    (hz : ZipOK G att st) (hst : st.stack = cur :: hs)
+    (hz : ZipOK G att root st) (hst : st.stack = cur :: hs)
     (hno : (st.focus.children.isEmpty && (st.focus.phi == 0 || st.focus.delta == 0)) = false) :
-    ZipOK G att { st with focus := setNumbers G cur st.focus } := by
+    ZipOK G att root { st with focus := setNumbers G cur st.focus } := by
   obtain ⟨s, hs0, hst0, ht, hc⟩ := hz
   rw [hst] at hst0
   injection hst0 with e1 e2
@@ -60,8 +60,8 @@ theorem renumber_ok (hsb : SmallBranching G) (st : St S M) (cur : S) (hs : List 
         rcases h2 with h2 | h2
         · exact absurd h2 hno.1
         · exact absurd h2 hno.2
-  · show CrumbsOK G att st.depthLimited st.up hs cur (setNumbers G cur st.focus)
-    refine CrumbsOK.replace G att hc (setNumbers_move G cur st.focus) (setNumbers_isAnd G cur st.focus) ?_
+  · show CrumbsOK G att root st.depthLimited st.up hs cur (setNumbers G cur st.focus)
+    refine CrumbsOK.replace G att root hc (setNumbers_move G cur st.focus) (setNumbers_isAnd G cur st.focus) ?_
     intro hx hd
     have := hnil hx
     rw [this] at hno
@@ -70,9 +70,9 @@ theorem renumber_ok (hsb : SmallBranching G) (st : St S M) (cur : S) (hs : List 
 
 /-- changing the proof depth of the focus, and dropping the children of a solved focus, keeps the state sound -/
 theorem focus_adjust_ok (st : St S M) (d : UInt16) (drop : Bool)
-    (hz : ZipOK G att st) (hsolved : drop = true → st.focus.phi = 0 ∨ st.focus.delta = 0) :
-    ZipOK G att { st with focus := { st.focus with proofDepth := d,
-                                                   children := if drop = true then [] else st.focus.children } } := by
+    (hz : ZipOK G att root st) (hsolved : drop = true → st.focus.phi = 0 ∨ st.focus.delta = 0) :
+    ZipOK G att root
+      { st with focus := { st.focus with proofDepth := d, children := (if drop = true then [] else st.focus.children) } } := by
   obtain ⟨s, hs, hst, ht, hc⟩ := hz
   rw [TreeOK_iff] at ht
   obtain ⟨hnum, hkids, hcov, hnil⟩ := ht
@@ -94,7 +94,7 @@ theorem focus_adjust_ok (st : St S M) (d : UInt16) (drop : Bool)
       cases drop with
       | true => simp
       | false => simpa using hnil hx
-  · exact CrumbsOK.replace G att hc rfl rfl (fun h1 h2 => ⟨h1, h2⟩)
+  · exact CrumbsOK.replace G att root hc rfl rfl (fun h1 h2 => ⟨h1, h2⟩)
 
 theorem solvedUpdate_spec (isRoot : Bool) (cfg : PN.Cfg) (stats stats' : Stats) (node node' : Node M)
     (h : solvedUpdate isRoot cfg stats node = .ok (stats', node')) :
@@ -116,8 +116,8 @@ theorem solvedUpdate_spec (isRoot : Bool) (cfg : PN.Cfg) (stats stats' : Stats) 
 
 /-- one round of `updateAncestors` -/
 theorem updateStep_ok (hsb : SmallBranching G) (base : Nat) (st st1 : St S M) (b : Bool)
-    (hz : ZipOK G att st) (h : updateStep G base st = .ok (b, st1)) (han : st1.anomaly = false) :
-    ZipOK G att st1 ∧ st.anomaly = false := by
+    (hz : ZipOK G att root st) (h : updateStep G base st = .ok (b, st1)) (han : st1.anomaly = false) :
+    ZipOK G att root st1 ∧ st.anomaly = false := by
   unfold updateStep at h
   split at h
   · exact absurd h (by simp)
@@ -133,8 +133,8 @@ theorem updateStep_ok (hsb : SmallBranching G) (base : Nat) (st st1 : St S M) (b
       simp only [Bool.or_eq_false_iff] at hh
       exact hh
     have hren : ∀ hno : (st.focus.children.isEmpty && (st.focus.phi == 0 || st.focus.delta == 0)) = false,
-        ZipOK G att { st with focus := setNumbers G cur st.focus } :=
-      fun hno => renumber_ok G att hsb st cur rest hz hst hno
+        ZipOK G att root { st with focus := setNumbers G cur st.focus } :=
+      fun hno => renumber_ok G att root hsb st cur rest hz hst hno
     split at h
     · rename_i hsolved
       split at h
@@ -147,23 +147,23 @@ theorem updateStep_ok (hsb : SmallBranching G) (base : Nat) (st st1 : St S M) (b
         refine ⟨?_, ha⟩
         obtain ⟨d, drop, hn'⟩ := solvedUpdate_spec _ _ _ _ _ _ hsu
         have hz1 := hren hno
-        have hz2 := focus_adjust_ok G att { st with focus := setNumbers G cur st.focus } d drop hz1 (by
+        have hz2 := focus_adjust_ok G att root { st with focus := setNumbers G cur st.focus } d drop hz1 (by
           intro _
           simp only [Bool.or_eq_true, beq_iff_eq] at hsolved
           exact hsolved)
         rw [hn']
-        exact (ZipOK_congr G att rfl rfl rfl rfl).mp hz2
+        exact (ZipOK_congr G att root rfl rfl rfl rfl).mp hz2
     · split at h
       · simp only [Except.ok.injEq, Prod.mk.injEq] at h
         obtain ⟨_, h2⟩ := h
         subst h2
         obtain ⟨ha, hno⟩ := key _ st.stats han
-        exact ⟨(ZipOK_congr G att rfl rfl rfl rfl).mp (hren hno), ha⟩
+        exact ⟨(ZipOK_congr G att root rfl rfl rfl rfl).mp (hren hno), ha⟩
       · simp only [Except.ok.injEq, Prod.mk.injEq] at h
         obtain ⟨_, h2⟩ := h
         subst h2
         obtain ⟨ha, hno⟩ := key _ st.stats han
-        exact ⟨(ZipOK_congr G att rfl rfl rfl rfl).mp (hren hno), ha⟩
+        exact ⟨(ZipOK_congr G att root rfl rfl rfl rfl).mp (hren hno), ha⟩
 
 theorem ascend_same (st st' : St S M) (h : ascend st = some st') : SameRest st st' := by
   unfold ascend at h
@@ -215,8 +215,8 @@ theorem updateAncestors_mono (base : Nat) : ∀ (fuel : Nat) (st st' : St S M),
         exact updateStep_mono G base st st1 true hstep h1
 
 theorem updateAncestors_ok (hsb : SmallBranching G) (base : Nat) : ∀ (fuel : Nat) (st st' : St S M),
-    ZipOK G att st → updateAncestors G base fuel st = .ok st' → st'.anomaly = false →
-    ZipOK G att st' := by
+    ZipOK G att root st → updateAncestors G base fuel st = .ok st' → st'.anomaly = false →
+    ZipOK G att root st' := by
   intro fuel
   induction fuel with
   | zero => intro st st' _ h; simp [updateAncestors] at h
@@ -227,15 +227,15 @@ theorem updateAncestors_ok (hsb : SmallBranching G) (base : Nat) : ∀ (fuel : N
     · exact absurd h (by simp)
     · rename_i st1 hstep
       injection h with h; subst h
-      exact (updateStep_ok G att hsb base st st1 false hz hstep han).1
+      exact (updateStep_ok G att root hsb base st st1 false hz hstep han).1
     · rename_i st1 hstep
       split at h
       · exact absurd h (by simp)
       · rename_i st2 hasc
         have h2 := updateAncestors_mono G base fuel st2 st' h han
         have h1 : st1.anomaly = false := by rw [← (ascend_same st1 st2 hasc).2.2.2]; exact h2
-        obtain ⟨hz1, _⟩ := updateStep_ok G att hsb base st st1 true hz hstep h1
-        obtain ⟨hz2, _, _⟩ := ascend_ok G att st1 st2 hz1 hasc
+        obtain ⟨hz1, _⟩ := updateStep_ok G att root hsb base st st1 true hz hstep h1
+        obtain ⟨hz2, _, _⟩ := ascend_ok G att root st1 st2 hz1 hasc
         exact ih st2 st' hz2 h han
 
 end C06
